@@ -472,6 +472,10 @@ pub fn wrap_match_stream(r: &mut StdRng) -> (Vec<u8>, Vec<u8>) {
             };
             let mut dist = (cur + 32768 * 4 - want_src) % 32768;
             if dist == 0 { dist = 32768; }
+            if r.gen_range(0..4) == 0 {
+                // distances next to the ring size itself: the source sits just ahead of the destination
+                dist = [32767usize, 32766, 32765, 32768, 32764, 16384, 32760][r.gen_range(0..7)];
+            }
             if dist > cur { dist = 1 + r.gen_range(0..cur.min(32768)); }
             e.mat(len, dist);
         }
